@@ -100,6 +100,13 @@ def _builder_aliases(b, d):
                 base = b.base_of(t['args'][0])
                 if base and base[0] in al:
                     al.add(t['dest']['l']); grew = True
+            # a conversion between the std and the tokio builder (`tokio::fs::OpenOptions::from(std_options)`) carries the flags along
+            if t['k'] == 'call' and 'q' in t['callee'] and t['callee']['q'] in ('core::convert::From::from', 'core::convert::Into::into') and t['args'] and \
+                    not t['dest']['p'] and t['dest']['l'] not in al and t['args'][0]['k'] in ('copy', 'move') and \
+                    'OpenOptions' in (b.lty(t['dest']['l']).get('adt') or ''):
+                base = b.base_of(t['args'][0])
+                if base and base[0] in al:
+                    al.add(t['dest']['l']); grew = True
     return al
 
 
@@ -370,8 +377,10 @@ def chains(b):
                 complete = False
             if done:
                 table.append((env_in, {k for k, v in flags.items() if v is True}))
+        opens_in_reach = any(b.blocks[x]['term']['k'] == 'call' and 'q' in b.blocks[x]['term']['callee'] and is_oo(callee_q(b.blocks[x]['term'])) and
+                             callee_q(b.blocks[x]['term']).endswith('::open') for x in region)
         yield {'function': b.q, 'at': nt['loc'], 'inputs': ['.'.join(i) for i in inputs], 'table': table, 'path': path,
-               'complete': complete, 'path_op': path_op}
+               'complete': complete, 'path_op': path_op, 'opens_in_reach': opens_in_reach}
         # a builder kept in a variable and used again: every later open() sees whatever any earlier branch has set on it
         if aliases:
             setters = [(sbi, st_) for sbi, st_ in b.calls() if 'q' in st_['callee'] and is_oo(callee_q(st_)) and callee_q(st_).split('::')[-1] in BUILDER
@@ -412,6 +421,9 @@ def run(facts, cg=None):
             instances.append(inst)
             if not ch['complete']:
                 finding(b.q, 'undecidable:' + str(ch['path']), 'open flags at %s depend on something other than constant/option bools' % ch['at'])
+                continue
+            if not rows and ch.get('opens_in_reach'):
+                finding(b.q, 'undecidable:' + str(ch['path']), 'the builder created at %s reaches an open() the evaluation could not follow it to (cannot decide)' % ch['at'])
                 continue
             writable = any(r['effective'] and ({'write', 'append', 'create', 'create_new', 'truncate'} & set(r['effective'])) for r in rows)
             if not writable:
